@@ -199,6 +199,16 @@ class Run:
             shutil.copy(os.path.join(d, "run.cfg"), cd)
             with open(os.path.join(cd, "case.json"), "w") as f:
                 json.dump({"kind": "trace", "property": self.prop, "module": module, "files": [os.path.basename(x) for x in files]}, f)
+        if cap and not files and not simulate:
+            # design runs are kept too (tools/vacuity.py re-runs them with -coverage 1)
+            cfgtext = open(os.path.join(d, "run.cfg")).read()
+            h = hashlib.sha1((module + cfgtext).encode()).hexdigest()[:10]
+            cd = os.path.join(cap, "design-%s-%s" % (module, h))
+            if not os.path.exists(cd):
+                os.makedirs(cd)
+                shutil.copy(os.path.join(d, "run.cfg"), cd)
+                with open(os.path.join(cd, "case.json"), "w") as f:
+                    json.dump({"kind": "design", "property": self.prop, "module": module, "expect_violation": bool(expect_violation)}, f)
         if workers is None:
             workers = NCPU
         cmd = ["timeout", str(timeout), "tlc", "-workers", str(workers), "-metadir", os.path.join(d, "md"),
